@@ -11,11 +11,12 @@ TRUSTED = ["f2py passes contiguous arrays of the declared shapes",
 ASSUMPTIONS = ["images of at most 65535 x 65535 pixels"]
 EXPLANATION = ("Proved for all images (tosparse_f32 / u16 / u32): the result is the number of selected pixels (recursive count spec), every entry "
                "is a selected pixel with its value attached, positions strictly increase in row-major order (hence sorted and duplicate free). "
-               "sparse_is_sorted returns 0 exactly for strictly row-major sorted input. sparse_overlaps: every reported pair is a common pixel, indices "
+               "sparse_is_sorted returns 0 exactly for strictly row-major sorted input. sparse_overlaps: every reported pair is a common pixel, every "
+               "common pixel is reported (completeness of the two-pointer merge, by three invariants with an existential witness), indices "
                "strictly increase, tails are zeroed, count bounded. coverlaps: memory safety and count bounds. mask_to_coo (per-row counts, prefix sums, "
                "parallel fill): memory safety, data-race freedom, and on success nnz is the last prefix sum, every stored (row, column) is a mask pixel "
                "inside the image and the entries are strictly sorted row-major. Bounded (not counted as proved): "
-               "completeness of sparse_overlaps, the matrix entries of coverlaps, compress_duplicates and the python glue "
+               "the matrix entries of coverlaps, compress_duplicates and the python glue "
                "(from_data_mask / from_data_cut / to_dense / sort / overlaps_linear / overlaps_matrix) against dictionary and numpy oracles.")
 
 
